@@ -71,7 +71,10 @@ fn main() {
     match workload.as_str() {
         "C01" => p_score::run_c01(&mut ctx, from, to, tiny),
         "C06" => p_score::run_c06(&mut ctx, from, to, tiny),
-        "C14" => p_score::run_c14(&mut ctx, from, to, tiny),
+        "C14" => {
+            p_score::ALLOW_BIG_PREDICTOR.store(true, std::sync::atomic::Ordering::Relaxed);
+            p_score::run_c14(&mut ctx, from, to, tiny)
+        }
         "C07" => p_model::run_c07(&mut ctx, from, to),
         "C19lib" => p_model::run_c19lib(&mut ctx, from, to),
         "C08h" => p_history::run_c08(&mut ctx, from, to),
@@ -96,6 +99,8 @@ fn main() {
         "C20e" => p_cli::run_c20e(&mut ctx, from, to),
         #[cfg(feature = "train")]
         "C11cli" => p_cli::run_c11cli(&mut ctx, from, to),
+        #[cfg(feature = "cli")]
+        "C17cli" => p_cli::run_c17cli(&mut ctx, from, to),
         "C08t" => p_threads::run_c08t(&mut ctx, from, to, tiny, threads),
         "C18u" => p_unsafe::run_c18u(&mut ctx, from, to, tiny),
         "C02x" => p_sentence::run_c02x(&mut ctx, from, to),
@@ -106,6 +111,7 @@ fn main() {
         "C05x" => p_sentence::run_c05x(&mut ctx, from, to),
         "C05r" => p_sentence::run_c05r(&mut ctx, from, to),
         "C05h" => p_sentence::run_c05h(&mut ctx, from, to),
+        "C08f" => p_sentence::run_c08f(&mut ctx, from, to),
         w => {
             eprintln!("unknown workload {w}");
             std::process::exit(64);
